@@ -349,27 +349,32 @@ Proof.
   - intros H. apply ae_body_log in H; auto. destruct H as [H1 H2]. split; [exact H1|]. intros Hs. apply H2. exact Hs.
 Qed.
 
-(* success also means the previous entry matched: the leader's (prevIdx, prevTerm) is in the
-   follower's log, or is its cached tail / snapshot boundary *)
+(* success also means the previous entry matched: the leader's (prevIdx, prevTerm) is the
+   follower's cached tail, its snapshot boundary, or an entry of its log *)
 Theorem append_success_prev P s fs a s' r tr fs' :
   append_entries P s fs a = Done s' r tr fs' -> ar_success r = true -> 0 < aq_prevIdx a ->
   (aq_prevIdx a = fst (last_entry s) /\ aq_prevTerm a = snd (last_entry s)) \/
+  (aq_prevIdx a = v_lastSnapIdx s /\ aq_prevTerm a = v_lastSnapTerm s) \/
   (exists pe, d_log s !! aq_prevIdx a = Some pe /\ e_term pe = aq_prevTerm a).
 Proof.
   unfold append_entries. destruct (aq_term a <? v_term s).
   { intros H; inversion H; subst. simpl. discriminate. }
   assert (G : forall s1 s2 rt tr1 fs1, d_log s2 = d_log s -> last_entry s2 = last_entry s ->
+     v_lastSnapIdx s2 = v_lastSnapIdx s -> v_lastSnapTerm s2 = v_lastSnapTerm s ->
      ae_body P s1 s2 rt tr1 fs1 a = Done s' r tr fs' -> ar_success r = true -> 0 < aq_prevIdx a ->
      (aq_prevIdx a = fst (last_entry s) /\ aq_prevTerm a = snd (last_entry s)) \/
+     (aq_prevIdx a = v_lastSnapIdx s /\ aq_prevTerm a = v_lastSnapTerm s) \/
      (exists pe, d_log s !! aq_prevIdx a = Some pe /\ e_term pe = aq_prevTerm a)).
-  { intros s1 s2 rt tr1 fs1 Hl Hle Hb Hs Hp. unfold ae_body in Hb.
+  { intros s1 s2 rt tr1 fs1 Hl Hle Hsi Hst Hb Hs Hp. unfold ae_body in Hb.
     destruct (prev_check s2 a) as [[|]|] eqn:Epc; try (inversion Hb; subst; simpl in Hs; discriminate).
     unfold prev_check in Epc. destruct (N.ltb_spec 0 (aq_prevIdx a)); [|lia].
-    rewrite Hle, Hl in Epc. destruct (last_entry s) as [li lt]. simpl.
+    rewrite Hle, Hl, Hsi, Hst in Epc. destruct (last_entry s) as [li lt]. simpl.
     destruct (N.eqb_spec (aq_prevIdx a) li).
     - inversion Epc as [E]. apply N.eqb_eq in E. left. auto.
-    - destruct (d_log s !! aq_prevIdx a) as [pe|]; [|discriminate]. inversion Epc as [E].
-      apply N.eqb_eq in E. right. exists pe. auto. }
+    - destruct (N.eqb_spec (aq_prevIdx a) (v_lastSnapIdx s)).
+      + inversion Epc as [E]. apply N.eqb_eq in E. right. left. auto.
+      + destruct (d_log s !! aq_prevIdx a) as [pe|]; [|discriminate]. inversion Epc as [E].
+        apply N.eqb_eq in E. right. right. exists pe. auto. }
   match goal with |- context [if ?B then _ else Some (s, fs, [])] => destruct B end.
   - destruct (do_set_term (set_state s Follower) fs (aq_term a)) as [[s1 fs1]|] eqn:E; [|discriminate].
     unfold do_set_term in E. destruct (next_fail fs) as [f fs2]. destruct f; [discriminate|].
